@@ -368,7 +368,12 @@ def random_spec(rng, **o):
         s.pc_feature_spike_ids = rows
     if g('tfeatures', False):
         nloc = min(nt, int(rng.integers(2, 4)))
-        s.template_features = rng.normal(0, 1, size=(ns, nloc)).astype(np.float32)
+        trows = None
+        if g('tfeat_rows', False):
+            k = int(rng.integers(2, ns))
+            trows = np.sort(rng.permutation(ns)[:k]).astype(np.int64)
+        s.template_feature_spike_ids = trows
+        s.template_features = rng.normal(0, 1, size=(ns if trows is None else len(trows), nloc)).astype(np.float32)
         s.template_feature_ind = np.stack(
             [rng.permutation(nt)[:nloc] for _ in range(nt)]).astype(g('dtype_ind', 'int32'))
     raw = g('raw', 'none')
